@@ -98,14 +98,19 @@ func start(cfg *config.Config) {
 	// input is from a live GNSS device, the function will run until
 	// the device stops sending or this process is killed.
 	recorderChannel := make(chan []byte)
-	defer close(recorderChannel)
+	recorderDone := make(chan struct{})
 	dailyRecorder := newLogWriter(cfg)
-	go recorder(recorderChannel, dailyRecorder, cfg)
+	go func() {
+		defer close(recorderDone)
+		recorder(recorderChannel, dailyRecorder, cfg)
+	}()
 
 	readAndWrite(recorderChannel, cfg)
 
-	// Done.  The defer above closes the recorder channel, which stops
-	// the recorder goroutine.
+	// Done.  Close the recorder channel, which stops the recorder
+	// goroutine, and wait until it has written the last block.
+	close(recorderChannel)
+	<-recorderDone
 }
 
 // readAndWrite runs until the input is exhausted (which may never
